@@ -16,6 +16,18 @@ CHECKS = {
         'are also evaluated directly on the implementation.',
    note='Trusted: Coq kernel; ExtrOcamlBasic extraction (cross-checked by vm_compute on a sample); harness generators/monitors; '
         'Python try/except/finally + OrderedSet semantics as mirrored by the model. No axioms (all theorems closed under the global context).'),
+ 'C09': dict(
+   category='proof', design_ref='DESIGN.md section 4, C09',
+   technique='Coq refinement proof (simulation invariant over all histories) of a PostgreSQL-style transaction spec by a model of dbstate.py + compile_in_tx + server/worker bookkeeping; differential correspondence model vs real code; independent PG oracle as monitor',
+   text='Machine-checked refinement theorem: for every finite history of START/COMMIT/ROLLBACK/DECLARE/RELEASE/ROLLBACK TO/SET ALIAS/DDL/query '
+        'requests with any placement of compile-time rejections (incl. scripts rejected after an effectful prefix), backend failures, worker '
+        'reuse choices and client-side alias changes that satisfies the stated side condition hist_ok, the implementation model (CompilerConnectionState/'
+        'Transaction, Compiler.compile_in_tx, worker LAST_STATE reuse, dbview bookkeeping) gives exactly the replies and compiles every statement against '
+        'exactly the payload of a PostgreSQL-style transaction specification; plus refutation witnesses for the three defects found (two repaired by fix: '
+        'commits, one known finding). The model is tied to /repo on every run: the real dbstate, compile_in_tx, _compile_ql_transaction, worker.compile_in_tx '
+        'and AbstractPool.compile_in_tx execute the same histories as the extracted model and all replies/seen payloads are compared.',
+   note='Trusted: Coq kernel; extraction (cross-checked by vm_compute on a sample); harness. Modelled, not executed: dbview.pyx/execute.pyx/binary.pyx '
+        'bookkeeping (transliterated), the per-statement compile loop for SET ALIAS/DDL, PostgreSQL itself (oracle). No axioms.'),
 }
 
 NA_DEFAULT = 'check not built yet (round 1 in progress); see DESIGN.md section 6'
